@@ -37,7 +37,9 @@ RULE = ("per case one real site object (caltech/jpl/office001 × basic/real EVSE
         "a non-negative direction matrix stations×T (random sparse, single-line-pair heavy, balanced, two-pair, "
         "pod-only, panel-only, one-transformer, single-EVSE, allowable-rate grids) and a mode: raw, scaled by bisection on "
         "is_feasible to the boundary·(1∓1e-8), exact −90° edge (value = bound / bound+1ulp), malformed shape, negative; "
-        "voltage argument default / 208 / 240, caltech also through the deprecated CaltechACN wrapper (keyword and positional); "
+        "voltage argument default / 208 / 240, caltech also through the deprecated CaltechACN wrapper (keyword and positional), "
+        "12 % of the site objects after a JSON save and reload (from_json(to_json())), 12 % of the raw/boundary cases ask "
+        "through is_feasible(linear=True) (oracle only); "
         "every period is also judged alone (is_feasible of the single column); Office001 exhaustively over {0,16,32}^8 "
         "(27 chunks × 243 periods; all chunks at three capacities in the thorough tier, three random chunks in quick); "
         "non-trivial = schedule reported feasible with a transformer above 99 % of its allowance, or a boundary/edge case; "
@@ -99,6 +101,9 @@ def _net(site, basic, caps, voltage=None, wrapper=None):
                 net = S.CaltechACN(bool(basic), 208 if voltage is None else voltage, *caps)
             elif wrapper == "kw":
                 net = S.CaltechACN(basic_evse=bool(basic), **kw)
+            elif wrapper == "json":    # the site network after a JSON save and reload (still the predefined site)
+                net0 = getattr(S, sp["factory"])(basic_evse=bool(basic), **kw)
+                net = type(net0).from_json(net0.to_json())
             else:
                 net = getattr(S, sp["factory"])(basic_evse=bool(basic), **kw)
         if len(_NETS) > 64:
@@ -180,6 +185,8 @@ def _gen_case(rng, i):
         case["voltage"] = rng.choice([208, 208.0])
     if site == "caltech" and rng.random() < 0.25:
         case["wrapper"] = rng.choice(["kw", "pos"])
+    elif rng.random() < 0.12:
+        case["wrapper"] = "json"
     r = rng.random()
     if i % 11 == 10:
         case["mode"] = rng.choice(["edge0", "edge+"])
@@ -200,6 +207,8 @@ def _gen_case(rng, i):
     else:
         case["mode"] = "boundary-"
         case["tol"] = rng.choice([[0.0, 0.0], [1e-3, 0.0], [0.0, 1e-4], [1e-5, 1e-7]])
+    if case["mode"] in ("raw", "boundary-", "boundary+") and rng.random() < 0.12:
+        case["linear"] = True          # ask through the 'linear' relaxation of is_feasible
     return case
 
 
@@ -312,19 +321,20 @@ def _resolve_direction(case, net):
     return D
 
 
-def _feas(net, S, tol):
+def _feas(net, S, tol, linear=False):
+    kw = {"linear": True} if linear else {}   # the 'linear' relaxation is a way of asking the network too
     if tol is None:
-        return bool(net.is_feasible(S))
-    return bool(net.is_feasible(S, violation_tolerance=tol[0], relative_tolerance=tol[1]))
+        return bool(net.is_feasible(S, **kw))
+    return bool(net.is_feasible(S, violation_tolerance=tol[0], relative_tolerance=tol[1], **kw))
 
 
-def _boundary_scale(net, D, tol):
+def _boundary_scale(net, D, tol, linear=False):
     """largest λ (to ~1 ulp) with is_feasible(λ·D); None if D is zero; capped when nothing ever binds"""
     if not np.any(D > 0):
         return None
     lo, hi = 0.0, 1.0
     k = 0
-    while _feas(net, hi * D, tol):
+    while _feas(net, hi * D, tol, linear):
         lo, hi = hi, hi * 2.0
         k += 1
         if k > 40:  # ~1e12 A and still accepted: some EVSE is constrained by nothing
@@ -333,7 +343,7 @@ def _boundary_scale(net, D, tol):
         mid = 0.5 * (lo + hi)
         if mid == lo or mid == hi:
             break
-        if _feas(net, mid * D, tol):
+        if _feas(net, mid * D, tol, linear):
             lo = mid
         else:
             hi = mid
@@ -372,6 +382,7 @@ def _edge_schedule(case, net, tol):
 def run_impl(case):
     net = _case_net(case)
     tol = case.get("tol")
+    lin = bool(case.get("linear"))
     ids = list(net.station_ids)
     n = len(ids)
     obs = {
@@ -409,7 +420,7 @@ def run_impl(case):
             obs["skip"] = "no exact edge"
             return obs
     elif mode in ("boundary-", "boundary+"):
-        lam = _boundary_scale(net, D, tol)
+        lam = _boundary_scale(net, D, tol, lin)
         if lam is None:
             obs["skip"] = "zero direction"
             return obs
@@ -425,14 +436,14 @@ def run_impl(case):
     obs["lam"] = lam
     obs["edge_expected"] = expected
     try:
-        feas = _feas(net, S, tol)
+        feas = _feas(net, S, tol, lin)
         mags = np.abs(net.constraint_current(S))
     except ValueError:
         obs["err"] = "ValueError"
         return obs
     obs["err"] = None
     obs["feasible"] = feas
-    obs["feas_t"] = [_feas(net, S[:, t:t + 1], tol) for t in range(S.shape[1])]
+    obs["feas_t"] = [_feas(net, S[:, t:t + 1], tol, lin) for t in range(S.shape[1])]
     obs["mags"] = [[float(x) for x in row] for row in mags.tolist()]
     return obs
 
@@ -444,8 +455,8 @@ def _S(obs):
 # ------------------------------------------------------------------ model
 
 def model_request(case, obs):
-    if "S" not in obs:
-        return None
+    if "S" not in obs or case.get("linear"):
+        return None   # linear-mode answers are judged by the oracle only (the site model is the phasor check)
     return {"site": case["site"], "voltage": f2b(_case_voltage(case)), "caps": [f2b(float(c)) for c in case["caps"]],
             "vt": f2b(obs["tol"][0]), "rt": f2b(obs["tol"][1]), "S": obs["S"]}
 
